@@ -25,6 +25,48 @@ Bytes = TypeDesc("bytes", None, None)
 Str = TypeDesc("str", None)
 Real = TypeDesc("real")
 IntList = TypeDesc("list", TypeDesc("int", None, None), None)  # list of ints of any length
+BytesList = TypeDesc("byteslist")
+Chunks = TypeDesc("chunks")
+
+
+def invariant(label, cond):
+    return None
+
+
+def decreases(expr):
+    return None
+
+
+def loop_spec(*a, **k):
+    return lambda f: f
+
+
+def ghost_function(args, result, measure):
+    return lambda f: f          # natively the recursive definition itself is executed
+
+
+def unfold(f, *args):
+    return None
+
+
+def bv_lemma(name):
+    """native twin: exhaustive / sampled check of the same statement in plain Python"""
+    import os, sys
+    root = os.path.dirname(os.path.dirname(os.path.abspath(__file__)))
+    if root not in sys.path:
+        sys.path.append(root)
+    from pyvc import crc_lemmas
+    return crc_lemmas.native_check(name, seed=int(os.environ.get("VERIF_SEED", "0") or 0))
+
+
+def refine_as(x, y):
+    return None
+
+
+def concat_chunks(q):
+    return b"".join(bytes(x) for x in q)
+
+
 _INPUTS = {}           # concrete inputs of the harness being replayed (set by helper/native.py)
 _BUILD_ARG = None      # helper/native.py: build_arg(name, td, inputs)
 
